@@ -89,6 +89,15 @@ def run_case(case):
             r = node.write(L.Frame(h, msg))
             return r, t0, net.sim.now
 
+        ch = case.get("chatter")
+        if ch:
+            # a neighbour keeps sending unacknowledged-type user frames to the (waiting) sender at a fixed period
+            def do_chatter(node):
+                for i in range(ch["count"]):
+                    node.write(L.Frame(L.Header(src, 1), b"ch%02d" % (i % 100)))
+                    net.sim.advance(ch["period_us"] * US)
+            net.post(ch["src"], do_chatter)
+            net.sim.advance(2 * MS)
         bg = case.get("bg")
         if bg:
             def do_bg(node):
@@ -200,6 +209,11 @@ def run_case(case):
         return res  # time bounds assume the sender is not also relaying another message
     arc_bound = 6 * 5 * MS + 4 * MS
     bound = (arc_bound + case["tx_timeout"] * MS) + (case["route_timeout"] * MS if needs else 0) + 10 * MS + 400 * slow
+    if case.get("chatter"):
+        # the update() call that is running when the deadline passes may still have to take in what the 3-level RX FIFO
+        # holds (about 10 SPI transactions per frame; twice the FIFO depth allowed)
+        bound += 6 * 12 * slow
+        res.label("chatter-to-the-waiting-sender")
     if t1 - t0 > bound:
         res.fail("C13/write-exceeds-time-bound/" + cls, "write() took %.1f ms, bound %.1f ms" % ((t1 - t0) / 1e6, bound / 1e6))
     if not needs and accepted and t1 - t0 > arc_bound + case["tx_timeout"] * MS + 6 * MS + 400 * slow and ret is True:
@@ -258,6 +272,16 @@ def _enum(quick):
                 n["mcu"] = {"spi": 400, "jit": 0, "seed": 1, "poll": 100} if n["addr"] == 0o1 else {"spi": 20, "jit": 0, "seed": 2, "poll": 100}
             yield {"src": 0o1, "dst": 0o2, "type": 100, "msg": "d3", "tx_timeout": 25, "route_timeout": 75, "fault": None,
                    "nodes": nodes, "bg": {"src": 0o11, "dst": 0o1, "type": 10, "lead_us": lead}}
+        # the NETWORK_ACK is lost (or not) while a child keeps sending plain frames to the waiting sender: the wait must
+        # still end at the route_timeout deadline
+        for period in ((400, 600, 1500) if quick else (200, 300, 400, 500, 600, 700, 800, 1000, 1500, 2500, 4000, 8000)):
+            for spi in (20, 400):
+                for f in (["ack", 0], None):
+                    nodes = _topology(0o1, 0o2, [0o11])
+                    for n in nodes:
+                        n["mcu"] = {"spi": spi, "jit": 0, "seed": 1, "poll": 100} if n["addr"] == 0o1 else {"spi": 8, "jit": 0, "seed": 2, "poll": 100}
+                    yield {"src": 0o1, "dst": 0o2, "type": 100, "msg": "d4", "tx_timeout": 25, "route_timeout": 75, "fault": f,
+                           "nodes": nodes, "chatter": {"src": 0o11, "period_us": period, "count": 500}}
     return gen
 
 
